@@ -665,7 +665,15 @@ fn multik(a: &[String]) {
         let p: Vec<&str> = line.split_whitespace().collect();
         let k: usize = p[0].parse().unwrap();
         let rc = p[1] == "1";
-        let files: Vec<InputFastx> = vec![("s0".to_string(), p[2].to_string(), None)];
+        // optional: second (read) file, min_count, min_qual, quality rule -> a read build with its own options
+        let (files, q): (Vec<InputFastx>, QualOpts) = if p.len() >= 7 {
+            (
+                vec![("s0".to_string(), p[2].to_string(), Some(p[3].to_string()))],
+                QualOpts { min_count: p[4].parse().unwrap(), min_qual: p[5].parse().unwrap(), qual_filter: parse_qf(p[6]) },
+            )
+        } else {
+            (vec![("s0".to_string(), p[2].to_string(), None)], QualOpts { min_count: q.min_count, min_qual: q.min_qual, qual_filter: QualFilter::NoFilter })
+        };
         println!("== {n}");
         if k <= 31 {
             let arr = MergeSkaArray::new(&build_and_merge::<u64>(&files, k, rc, &q, 1, None));
